@@ -720,6 +720,8 @@ class AEval(dtable.Eval):
                 self._note_assigned(l["path"])
                 return UNIT
             if is_node(l) and l["k"] == "Unary" and l["op"] == "*" and is_node(l["expr"]) and l["expr"]["k"] == "Path":
+                if v == DEFAULT and l["expr"]["path"] == "self":
+                    v = self._default_of_self(env)          # `*self = <default of an unknown type>`: the type is Self
                 env[l["expr"]["path"]] = v
                 self._note_assigned(l["expr"]["path"])
                 return UNIT
@@ -1298,6 +1300,23 @@ class AEval(dtable.Eval):
                     # (an arm that assigned the matched storage itself - `*self = ..` - has replaced it: the bindings are dead)
                     self._after_arm(m["scrutinee"], a["pat"], v, b, e2, env)
         raise Unknown("no arm matches " + str(v)[:200])
+
+    def _default_of_self(self, env):
+        """the value of `<Self as Default>::default()` when the impl's type has a hand-written Default in the analysed tree, else the
+        unknown default"""
+        ty = env["#Self"][1] if env.get("#Self") else (self._impl_stack[-1] if getattr(self, "_impl_stack", None) else None)
+        if ty is None or PROGRAM is None:
+            return DEFAULT
+        cands = [f2 for f2 in PROGRAM.by_qual.get((ty, "default"), []) if "Default" in (f2.impl_trait or "") and f2.body is not None and not f2.params()]
+        if len(cands) != 1:
+            return DEFAULT
+        try:
+            sub = self._sub() if hasattr(self, "_sub") else None
+        except Exception:  # noqa: BLE001
+            sub = None
+        ev2 = sub or AEval(funcs=self.funcs, consts=self.consts)
+        got = ev2.run_fn(cands[0], [])
+        return DEFAULT if isinstance(got, str) else got
 
     def _is_place(self, node, env):
         while is_node(node) and node["k"] in ("Paren", "Unary", "Ref"):
